@@ -272,6 +272,41 @@ pub fn eval_case(img: &BuiltImage, c: &Case) -> (String, Option<(String, String)
             }
         }
     }
+    // a compaction must not launder the damage: after a manual compaction of everything (which may
+    // fail) every get still fails or returns the model's value — entries of the damaged table must
+    // not vanish so that overwritten or deleted data is served again
+    if viol.is_none() && kind == "table" {
+        db.compact_range(None..None);
+        let dbg = std::env::var("RDBCHECK_DEBUG_CORRUPT").is_ok();
+        if dbg {
+            println!("    put after compaction -> {:?}", db.put(raindb::WriteOptions::default(), b"zz".to_vec(), b"1".to_vec()).err().map(|e| e.to_string()));
+            println!("    off {} after compaction: layout {:?}", c.offset, db.verif_layout().iter().map(|l| l.iter().map(|f| f.number).collect::<Vec<_>>()).collect::<Vec<_>>());
+        }
+        for k in img.history.keys.iter() {
+            match db_get(&db, k, None) {
+                Err(e) => {
+                    if dbg {
+                        println!("    get({}) -> Err({})", esc(k), e);
+                    }
+                    errors += 1
+                }
+                Ok(got) => {
+                    if !ok_value(k, &got) {
+                        viol = Some((
+                            "C15.compaction_served_stale_data".into(),
+                            format!(
+                                "after compact_range(..) over the damaged table get({}) = {} without an error, but the uncorrupted database holds {}",
+                                esc(k),
+                                show_opt(&got),
+                                show_opt(&img.model.get(k).cloned())
+                            ),
+                        ));
+                        break;
+                    }
+                }
+            }
+        }
+    }
     drop(db);
     (if errors > 0 { "read_error".into() } else { "all_correct".into() }, viol)
 }
